@@ -315,26 +315,6 @@ Proof.
   destruct (omap (input_at r) l) eqn:O; cbn [obind] in H; try discriminate. apply IHl. congruence.
 Qed.
 
-Lemma scan_inputs_spec : forall l pp prev,
-    match scan_inputs l pp prev with
-    | Ok o => o = prev \/ exists i, In i l /\ o = Some i
-    | Err (UnboundedMatchable a b) => (exists p, pp = Some p /\ a = rinput_span p) /\ exists i, In i l /\ b = rinput_span i
-    | _ => True
-    end.
-Proof.
-  induction l as [|inp l IH]; intros pp prev; cbn [scan_inputs]; auto.
-  destruct pp as [p|].
-  - split; eauto. exists inp. split; auto. left; reflexivity.
-  - assert (St : (exists st, is_star_subword inp = Ok st) \/ (exists m, is_star_subword inp = Panic m))
-      by (destruct inp; cbn; eauto).
-    destruct St as [[st ->]|[m ->]]; cbn [obind]; auto.
-    specialize (IH None (if st then Some inp else prev)).
-    destruct (scan_inputs l None (if st then Some inp else prev)) as [o|[a b]| |]; auto.
-    + destruct IH as [->|(i & Hi & ->)]; [destruct st; [right; exists inp; split; auto; left; reflexivity|auto]|].
-      right. exists i. split; auto. right; auto.
-    + destruct IH as [A (i & Hi & B)]. split; auto. exists i. split; auto. right; auto.
-Qed.
-
 Section TailSpans.
   Variable r : regex.
   Variable fw : list (N * list N).
@@ -352,18 +332,22 @@ Section TailSpans.
     destruct (inputs_of r fp) as [inputs|e| |] eqn:Ei; cbn [obind]; auto.
     2:{ destruct (inputs_of_no_err _ _ _ Ei). }
     pose proof (inputs_of_in _ _ _ Ei) as Hin.
-    pose proof (scan_inputs_spec inputs pp None) as Sc.
-    destruct (scan_inputs inputs pp None) as [prev|[a b]| |]; cbn [obind]; auto.
-    2:{ destruct Sc as [(p & -> & ->) (i & Hi & ->)]. split; apply in_map; auto; apply Hpp; reflexivity. }
-    assert (Hnext : pp_ok (opt_or pp prev)).
-    { intros p Hp. destruct pp as [q|]; cbn [opt_or] in Hp; [apply Hpp; auto|].
-      destruct Sc as [->|(i & Hi & ->)]; [discriminate|]. inversion Hp; subst. auto. }
-    clear Sc Ei.
+    destruct (first_clash pp inputs) as [[a b]|] eqn:Ec.
+    { unfold first_clash in Ec. destruct pp as [q|]; [|discriminate]. destruct inputs as [|inp rest]; [discriminate|].
+      inversion Ec; subst. split; apply in_map; [apply Hpp; reflexivity|apply Hin; left; reflexivity]. }
+    clear Ec Ei.
     generalize visited. induction fp as [|p ps IHps]; intros vis; auto.
     destruct (memN p vis); [apply IHps|].
     destruct (assocN p fw) as [follow|]; [|apply IHps].
-    specialize (IH follow (opt_or pp prev) (p :: vis) Hnext).
-    destruct (tail_only r fw f follow (opt_or pp prev) (p :: vis)) as [v1|[a b]| |]; cbn [obind]; auto.
+    unfold input_at at 1. destruct (nthN (r_inputs r) p) as [inp|] eqn:En; cbn [obind]; auto.
+    assert (Hinp : In inp (r_inputs r)) by (unfold nthN in En; eapply nth_error_In; eauto).
+    destruct (is_star_subword inp) as [st|e0| |] eqn:Est; cbn [obind]; auto.
+    2:{ destruct inp; discriminate. }
+    assert (Hnext : pp_ok (opt_or pp (if st then Some inp else None))).
+    { intros q Hq. destruct pp as [q'|]; cbn [opt_or] in Hq; [apply Hpp; auto|].
+      destruct st; [inversion Hq; subst; exact Hinp|discriminate]. }
+    specialize (IH follow (opt_or pp (if st then Some inp else None)) (p :: vis) Hnext).
+    destruct (tail_only r fw f follow _ (p :: vis)) as [v1|[a b]| |]; cbn [obind]; auto.
     apply IHps.
   Qed.
 End TailSpans.
